@@ -91,6 +91,7 @@ pub fn cli_main() {
     let seed: u64 = std::env::var("VERIF_SEED").ok().and_then(|s| s.trim().parse::<i64>().ok()).map(|v| v as u64).unwrap_or(1);
     install_panic_hook();
     let ctx = Ctx::new(&id, &tier, seed);
+    start_case_monitor(&id);
     let code = match std::panic::catch_unwind(std::panic::AssertUnwindSafe(|| props::dispatch(&ctx, replay_file.as_deref()))) {
         Ok(c) => c,
         Err(_) => {
